@@ -226,6 +226,7 @@ func vh_fsm_position() {
 	var meta *SnapshotMeta
 	if scenario >= 1 {
 		meta = &SnapshotMeta{Version: SnapshotVersionMax, ID: "snapA", Index: vU64("snap.index"), Term: vU64("snap.term")}
+		vAssume(meta.Index >= 1) // snapshots are taken at an applied index
 		env.snaps.metas = []*SnapshotMeta{meta}
 		if scenario == 2 {
 			fsm.restoreFail = true
